@@ -82,6 +82,21 @@ CHECKS["C10"] = ("exploration",
    "Hook lists with nested groups, multi-typed hooks, allow_failure and exit behaviours of every kind, stdin/stdout/stderr templates and five levels of environment tables; order, selection by type, variables, environment precedence, stdin, output files, create/edit bracketing, non-overlap and failure propagation are compared invocation by invocation.",
    "Attempts are delimited by a recorder post-operation hook placed first in the certificate's list; whether [global].env reaches account hooks is not judged.",
    "DESIGN.md 4 C10, appendix C")
+CHECKS["C12"] = ("exploration",
+   "schedule-perturbing property testing (proptest): generated sharing patterns of certificates over accounts/endpoints, seeded per-response delays and runtime thread counts, scenarios forcing the account write-lock paths; oracles: bounded completion (watchdog, re-run once), request counts per (account, endpoint) against a model, nonce ledger of the mock CA",
+   "Interleavings are sampled by moving the await points (response delays) and the number of worker threads; every renewal must end and succeed, registrations / roll-overs / contact updates happen exactly once per (account, endpoint), and no nonce is unknown or consumed twice.",
+   "The harness does not own the tokio schedule: a lock-order bug needing one specific interleaving can be missed; a seed reproduces the plan, not necessarily the interleaving.",
+   "DESIGN.md 4 C12, 6")
+CHECKS["C16"] = ("exploration",
+   "property-based testing (proptest) of the shipped tacd binary: generated domains / digests / key types / listeners / input channels / client ALPN lists; oracle = harness TLS client (OpenSSL) + own DER walker applying the RFC 8737 certificate rules",
+   "Each case starts the release build of tacd and performs several handshakes with generated ALPN offers; the certificate, the negotiated protocol and the refusal of foreign-only offers are checked.",
+   "Clients without any ALPN extension are not judged (the property speaks of clients that offer other protocols).",
+   "DESIGN.md 4 C16")
+CHECKS["C17"] = ("exploration",
+   "exhaustive enumeration (thorough) / enumeration plus proptest sampling (quick) of hostile connection histories against the shipped tacd binary; oracle = process state and a subsequent valid acme-tls/1 handshake judged by C16's certificate rules",
+   "All ordered selections of up to 4 behaviours from a 7-item catalogue (2800 per listener kind in thorough, all of length <= 2 plus 150 random longer ones in quick) are replayed against a fresh release-profile tacd.",
+   "Catalogue-bounded: behaviours outside the catalogue are not explored.",
+   "DESIGN.md 4 C17")
 PENDING = {}
 
 props = [json.loads(l) for l in open("/verif/properties.jsonl")]
